@@ -539,6 +539,14 @@ func reifyMergeValue(
 		if err != nil {
 			return reflect.Value{}, err
 		}
+
+		// what Unpack stored is validated like a converted value
+		if err := runValidators(old.Interface(), opts.validators); err != nil {
+			return reflect.Value{}, raiseValidation(val.Context(), val.meta(), "", err)
+		}
+		if err := tryValidate(old); err != nil {
+			return reflect.Value{}, raiseValidation(val.Context(), val.meta(), "", err)
+		}
 		return old, nil
 	}
 
